@@ -171,22 +171,25 @@ inductive Code where
   | callDeepCopy                               -- *out = in.DeepCopy()
   | assignAll                                  -- *out = *in
   | mapLoop (raw : TE) (body : Code)           -- *out = make(T, len(*in)); for key, val := range *in { body }
-  | mvDcSame | mvDcDeref | mvAssign | mvStructDeref
+  | mvDcSame | mvDcDeref | mvAssign
+  | mvStructDeref (t : TE)                     -- (*out)[key] = *val.DeepCopy() of the generated struct type t
   | mvIface (n : Str)
   | mvRef (raw : TE) (p : Code)
   | sliceInto (raw : TE)                       -- make; for i { (*in)[i].DeepCopyInto(&(*out)[i]) }
   | sliceCopy (raw : TE)                       -- make; copy(*out, *in)
   | sliceRef (raw : TE) (p : Code)
   | sliceIface (raw : TE) (n : Str)
-  | sliceStruct (raw : TE)
+  | sliceStruct (raw : TE) (e : TE)            -- per element DeepCopyInto of the generated struct type e
   | structAll (fixups : Code)                  -- *out = *in; fixups
   | fxNil
   | fxCons (name : Str) (fix : Code) (rest : Code)
-  | ffDcSame | ffDcInto | ffNone | ffArrayAssign | ffStructAssign | ffStructInto
+  | ffDcSame | ffDcInto | ffNone | ffArrayAssign | ffStructAssign
+  | ffStructInto (t : TE)
   | ffIface (n : Str)
   | ffRef (p : Code)
   | ffArrayLoop (p : Code)
-  | aeInto | aeNone | aeStruct
+  | aeInto | aeNone
+  | aeStruct (t : TE)
   | aeIface (n : Str)
   | aeRef (p : Code)
   | aeNested (p : Code)
@@ -225,7 +228,7 @@ def mapValOf (env : Env) (fa : Nat) (rec : TE → Code) (e : TE) : Code :=
   else match view env fa e with
     | .iface n => if n = kEmptyIface then .fatal else .mvIface n
     | .slice _ | .map _ _ | .ptr _ => .mvRef (underTE env fa e) (rec e)
-    | .struct _ => .mvStructDeref
+    | .struct _ => .mvStructDeref e
     | _ => .fatal
 
 /-- `doSlice` after the hand-written-methods test -/
@@ -238,7 +241,7 @@ def sliceBodyOf (env : Env) (fa : Nat) (rec : TE → Code) (t e : TE) : Code :=
       else match v with
         | .slice _ | .map _ _ | .ptr _ => .sliceRef t (rec e)
         | .iface n => if n = kEmptyIface then .fatal else .sliceIface t n
-        | .struct _ => .sliceStruct t
+        | .struct _ => .sliceStruct t e
         | _ => .fatal
 
 /-- `doArrayElem` -/
@@ -249,7 +252,7 @@ def arrayElemOf (env : Env) (fa : Nat) (rec : TE → Code) : Nat → TE → Code
     else match view env fa e with
       | .map _ _ | .slice _ | .ptr _ => .aeRef (rec e)
       | .array _ e' => if arrayAssignable env fa fa e' then .aeNone else .aeNested (arrayElemOf env fa rec f e')
-      | .struct _ => .aeStruct
+      | .struct _ => .aeStruct e
       | .iface n => if n = kEmptyIface then .fatal else .aeIface n
       | _ => .fatal
 
@@ -261,7 +264,7 @@ def fixOf (env : Env) (fa : Nat) (rec : TE → Code) (m : Field) : Code :=
     | .builtin => .ffNone
     | .map _ _ | .slice _ | .ptr _ => .ffRef (rec m.t)
     | .array _ e => if arrayAssignable env fa fa e then .ffArrayAssign else .ffArrayLoop (arrayElemOf env fa rec fa e)
-    | .struct _ => if assignable env fa m.t then .ffStructAssign else .ffStructInto
+    | .struct _ => if assignable env fa m.t then .ffStructAssign else .ffStructInto m.t
     | .iface n => if n = kEmptyIface then .fatal else .ffIface n
     | .unknown => .fatal
 
